@@ -19,7 +19,7 @@ func init() {
 			"Jie instants and the exact month/hour pillars are read from the birth's Lunar (validated by C03/C05)",
 		},
 		Gen: c12Gen, Run: c12Run,
-		BlockKind: "year", BlockQuick: [2]int{6, 4}, BlockThorough: [2]int{0, 25},
+		BlockKind: "year", BlockQuick: [2]int{6, 4}, BlockThorough: [2]int{60, 20},
 		Exhaustive: func(tier string) bool { return false },
 		MinEvals:   map[string]int64{"quick": 1000000, "thorough": 30000000},
 		Chunks:     128,
@@ -262,8 +262,8 @@ func c12Birth(w *W, st ref.Stamp, class string) {
 					}
 				}
 				w.Eval(4)
-				if w.Quick && !(i <= 1 || i == st.Mi%8+2) {
-					continue // quick tier: annual/minor fortunes of great fortunes 0, 1 and one rotating index
+				if (w.Quick || st.Y%10 != 0) && !(i <= 1 || i == st.Mi%8+2) {
+					continue // annual/minor fortunes of great fortunes 0, 1 and one rotating index (all ten for births in every tenth year of the thorough tier)
 				}
 				lns := dy.GetLiuNian()
 				wantLen := 10
@@ -288,7 +288,7 @@ func c12Birth(w *W, st ref.Stamp, class string) {
 					if ln.GetXun() != ref.XunNames[ref.XunIndex(yp)] || ln.GetXunKong() != ref.XunKongNames[ref.XunIndex(yp)] {
 						w.Violatef("liunian-pillar", lk+"/xun", "annual fortune of year %d: xun %s/%s", ln.GetYear(), ln.GetXun(), ln.GetXunKong())
 					}
-					if !(k == 0 || k == len(lns)-1 || k == (i+st.S)%10 || (!w.Quick && st.S%5 == 0)) {
+					if !(k == 0 || k == len(lns)-1 || k == (i+st.S)%10 || (!w.Quick && st.Y%10 == 0 && st.S%5 == 0)) {
 						w.Eval(3)
 						continue // monthly fortunes are expanded for the first, last and one rotating annual fortune
 					}
